@@ -94,6 +94,7 @@ def evidence(ctx, agg, rule, extra_assumptions=(), exhaustive=True, extra=None):
 
 def run_C08(ctx):
     agg = new_agg()
+    obl = apalache_ring(ctx, sensitivity=not ctx.quick)
     if ctx.quick:
         cfgs = finite_cfgs([2, 3, 4], 3)
         sensitivity(ctx, finite_cfgs([3], 1), 0)
@@ -114,7 +115,9 @@ def run_C08(ctx):
              "constants, reached by a shortest history; in each, Replay is probed with every presented ID "
              "(unset, every put incl. evicted, next, next+3, literals) x 3 topic sets x a failure at every Send and at Flush; "
              "non-trivial = a probe that replays at least one message, distinct by (mode, ring shape, presented ID, topics, result)",
-             exhaustive=ctx.quick)
+             exhaustive=ctx.quick,
+             extra={"inductive_invariant": {"tool": "apalache-mc 0.58", "module": "specs/apalache/RingInd.tla", "capacities": "2..8", "history_length": "unbounded",
+                                            "obligations_discharged": obl}})
 
 
 def valid_plan(ctx):
@@ -179,3 +182,33 @@ def run_C18(ctx):
              ["the Go garbage collector and runtime.SetFinalizer are the observation instrument: a message the spec says is dropped "
               "must be finalised within 20 forced collections"],
              exhaustive=ctx.quick)
+
+
+def apalache_ring(ctx, sensitivity=False):
+    """Unbounded-history part of C08: Apalache discharges an inductive invariant of the ring arithmetic (any number of puts,
+    capacities 2..8) and shows that the automatic-ID lookup is correct in every state satisfying it."""
+    import shutil
+    import subprocess
+    d = os.path.join(ctx.work, "apalache")
+    os.makedirs(d, exist_ok=True)
+    src = os.path.join(core.SPECS, "apalache", "RingInd.tla")
+    shutil.copy(src, d)
+    obligations = [("Init => IndInv", ["--init=Init", "--inv=IndInv", "--length=0"]),
+                   ("IndInv /\\ Next => IndInv'", ["--init=IndInit", "--inv=IndInv", "--length=1"]),
+                   ("IndInv => FindOK", ["--init=IndInit", "--inv=FindOK", "--length=0"])]
+    done = []
+    for name, args in obligations:
+        p = subprocess.run(["apalache-mc", "check", "--cinit=CInit", "--out-dir=" + os.path.join(d, "out")] + args + ["RingInd.tla"],
+                           cwd=d, capture_output=True, text=True, timeout=900)
+        if "The outcome is: NoError" not in p.stdout:
+            raise core.ToolFailure("Apalache did not discharge %r:\n%s" % (name, p.stdout[-1500:]))
+        done.append(name)
+    if sensitivity:
+        txt = open(src).read().replace("id - firstID >= count - 1 THEN -1", "id - firstID >= count THEN -1").replace("MODULE RingInd ", "MODULE RingIndAsFound ")
+        with open(os.path.join(d, "RingIndAsFound.tla"), "w") as f:
+            f.write(txt)
+        p = subprocess.run(["apalache-mc", "check", "--cinit=CInit", "--out-dir=" + os.path.join(d, "out"), "--init=IndInit", "--inv=FindOK", "--length=0", "RingIndAsFound.tla"],
+                           cwd=d, capture_output=True, text=True, timeout=900)
+        if "The outcome is: Error" not in p.stdout:
+            raise core.ToolFailure("sensitivity: the as-found lookup should violate FindOK under Apalache")
+    return done
